@@ -78,10 +78,13 @@ type sPlan struct {
 	// recorded, not judged).
 	GateClose   bool `json:"inputs_close_blocks_until_end_was_seen,omitempty"`
 	SlowCloseMs int  `json:"input0_close_sleeps_ms,omitempty"`
+	// ReuseArgs: as soon as stream.Merge has returned the caller overwrites its slice of inputs (every
+	// cell of the array, spare capacity included) with decoy streams.
+	ReuseArgs bool `json:"caller_overwrites_its_slice_after_merge_returned,omitempty"`
 }
 
 func (p sPlan) key() string {
-	s := fmt.Sprintf("smerge|close=%d|ctx=%v|gate=%v,%d", p.CloseAfter, p.ConsCtx, p.GateClose, p.SlowCloseMs)
+	s := fmt.Sprintf("smerge|close=%d|ctx=%v|gate=%v,%d|reuse=%v", p.CloseAfter, p.ConsCtx, p.GateClose, p.SlowCloseMs, p.ReuseArgs)
 	for _, in := range p.Inputs {
 		s += fmt.Sprintf("|%d,%d,%d,%d", in.N, in.Kind, in.FatalAt, in.ErrKind)
 	}
@@ -329,6 +332,16 @@ func runStream1(c *vkit.Case, p sPlan) {
 		c.Violation("smerge-panic", fmt.Sprintf("stream.Merge of %d inputs panicked: %s", n, pn.Msg), witness(map[string]any{"stack": trunc(pn.Stack, 4000)}))
 		return
 	}
+	// The argument list belongs to the caller: once Merge has returned the caller reuses it.
+	var decoys []*decoyIn
+	if p.ReuseArgs {
+		for i := range guard.arr {
+			d := &decoyIn{}
+			decoys = append(decoys, d)
+			guard.arr[i] = d
+		}
+		copy(guard.orig, guard.arr) // from now on this is what the library must leave alone
+	}
 
 	var (
 		got      []uint64
@@ -548,6 +561,20 @@ func runStream1(c *vkit.Case, p sPlan) {
 	if pn != nil {
 		c.Violation("smerge-panic", fmt.Sprintf("stream.Merge over %d inputs: Next/Close panicked: %s", n, pn.Msg), witness(map[string]any{"stack": trunc(pn.Stack, 4000)}))
 		return
+	}
+	if p.ReuseArgs {
+		r.Eval(1)
+		var nexts, closes int64
+		for _, d := range decoys {
+			nexts += d.nexts.Load()
+			closes += d.closes.Load()
+		}
+		if nexts+closes > 0 {
+			c.Violation("smerge-reads-callers-slice-after-return", fmt.Sprintf("stream.Merge over %d inputs kept reading the caller's slice after it had returned: the streams the caller stored there afterwards got %d Next and %d Close calls (consumer received %v)", n, nexts, closes, showVals(got)),
+				witness(map[string]any{"received": showVals(got)}))
+			return
+		}
+		r.Count("stream.Merge", "caller overwrote its slice after Merge returned; decoys untouched", 1)
 	}
 
 	inputStates := func() []map[string]any {
@@ -1004,6 +1031,41 @@ func smergeDeafCase(c *vkit.Case) {
 	}
 	runStream(c, p)
 	c.R.Count("stream.Merge", "plans: an input fails while another is blocked in a context-ignoring Next", 1)
+}
+
+// decoyIn is what the caller stores in its slice after stream.Merge has returned: nobody may touch it.
+type decoyIn struct {
+	nexts, closes atomic.Int64
+}
+
+func (d *decoyIn) Next(ctx context.Context) (uint64, error) {
+	switch k := d.nexts.Add(1); k {
+	case 1, 2:
+		neg := int64(-900) - k // -901, -902
+		return uint64(neg), nil
+	}
+	return 0, stream.End
+}
+func (d *decoyIn) Close() { d.closes.Add(1) }
+
+// smergeReuseCase: the caller reuses its slice of inputs right after stream.Merge has returned; the
+// merged stream must still be the merge of the ORIGINAL inputs, each of them closed exactly once.
+func smergeReuseCase(c *vkit.Case) {
+	if c.R.NViolations() >= maxViolations {
+		return
+	}
+	rnd := c.Rand
+	n := 1 + c.Index%7
+	p := sPlan{Label: "caller reuses its slice after Merge returned", ConsPace: vkit.Pick(rnd, intensities), CloseAfter: -1, ReuseArgs: true}
+	if c.Index%5 == 4 {
+		p.Inputs = genInputs(c, n, []int{60, 20, 20})
+		if p.has(kindBlock) && !p.has(kindFatal) {
+			p.CloseAfter = rnd.Intn(p.total() + 1)
+		}
+	} else {
+		p.Inputs = genInputs(c, n, []int{1, 0, 0})
+	}
+	runStream(c, p)
 }
 
 // smergeGateCase: every input is finite; every input's Close blocks until the consumer has seen
